@@ -348,6 +348,9 @@ func rootOfAddr(v ssa.Value) (kind string, root ssa.Value) {
 			name := "?"
 			if s, ok := st.Underlying().(*types.Struct); ok {
 				name = s.Field(x.Field).Name()
+				if pn := ActivePinnedFieldName(x.X.Type(), x.Field); pn != "" {
+					name = pn
+				}
 			}
 			tn := st.String()
 			return "field " + Rel(tn) + "." + name, x.X
